@@ -296,7 +296,13 @@ impl DeltaBitPacked {
             .map(|w| w[1].saturating_sub(w[0]))
             .collect();
 
-        let deltas = BitPackedInts::pack(&delta_values);
+        // A single value has no deltas: give the (empty) delta block a non-zero width so that
+        // `[0]` stays distinguishable from the empty sequence (both have base == 0).
+        let deltas = if delta_values.is_empty() {
+            BitPackedInts::pack_with_bits(&[], 1)
+        } else {
+            BitPackedInts::pack(&delta_values)
+        };
 
         Self { base, deltas }
     }
@@ -304,7 +310,7 @@ impl DeltaBitPacked {
     /// Decodes back to the original values.
     #[must_use]
     pub fn decode(&self) -> Vec<u64> {
-        if self.deltas.is_empty() && self.base == 0 {
+        if self.deltas.is_empty() && self.base == 0 && self.deltas.bits_per_value() == 0 {
             return Vec::new();
         }
 
@@ -324,7 +330,7 @@ impl DeltaBitPacked {
     /// Returns the number of values.
     #[must_use]
     pub fn len(&self) -> usize {
-        if self.deltas.is_empty() && self.base == 0 {
+        if self.deltas.is_empty() && self.base == 0 && self.deltas.bits_per_value() == 0 {
             0
         } else {
             self.deltas.len() + 1
@@ -334,7 +340,7 @@ impl DeltaBitPacked {
     /// Returns whether the encoding is empty.
     #[must_use]
     pub fn is_empty(&self) -> bool {
-        self.deltas.is_empty() && self.base == 0
+        self.deltas.is_empty() && self.base == 0 && self.deltas.bits_per_value() == 0
     }
 
     /// Returns the base value.
